@@ -663,6 +663,17 @@ fn adversarial(thorough: bool) -> Vec<Value> {
             }
         }
     }
+    // --- the remaining sub-commands with every flag value
+    // (`completions` writes to the process's stdout directly, which is the worker's reply channel: it is run as a child
+    // process by C05 instead)
+    for flags in [vec!["--print-json"], vec!["--print-yaml"], vec![], vec!["--print-json", "--print-yaml"], vec!["-o", "@out.txt"]] {
+        let mut argv = vec!["parse-tree", "-r", "@r.guard"];
+        argv.extend(flags.iter());
+        out.push(cli_case(&argv, json!({"r.guard": GOOD_RULES}), "", "other-commands"));
+        let mut argv2 = vec!["parse-tree"];
+        argv2.extend(flags.iter());
+        out.push(cli_case(&argv2, json!({}), GOOD_RULES, "other-commands"));
+    }
     // --- test files: unknown status words, wrong shapes
     for t in ["- input: {a: 1}\n  expectations:\n    rules:\n      r: MAYBE\n", "- input: {a: 1}\n  expectations:\n    rules:\n      r: pass\n", "- input: {a: 1}\n", "- expectations:\n    rules:\n      r: PASS\n", "input: {a: 1}\n", "[]\n", "- input: ~\n  expectations:\n    rules: {}\n", "- input: [1]\n  expectations:\n    rules:\n      nosuch: PASS\n", "- name: 1\n  input: {a: &x 1, b: *x}\n  expectations:\n    rules:\n      r: PASS\n", "- input: {1: 2}\n  expectations:\n    rules:\n      r: PASS\n", ""] {
         for fmt in [vec![], vec!["-v"], vec!["-o", "json"], vec!["-o", "yaml"], vec!["-o", "junit"]] {
